@@ -1,11 +1,97 @@
 from kernels import K
 
 # ---------------------------------------------------------------- C01
+# Assembly (flags, LHS, RHS, compression) and read-out (estimate, stdev, varZ) of the kriging system in
+# src/Estimation/KrigingSystem.cpp.  The inversion (Eigen) is outside; covariance and drift VALUES are abstract
+# (harness tables of symbolic reals behind the model / data base callbacks).
 _MATTUS = ['src/Matrix/AMatrix.cpp', 'src/Matrix/AMatrixDense.cpp', 'src/Matrix/AMatrixSquare.cpp',
            'src/Matrix/MatrixSquareSymmetric.cpp', 'src/Matrix/MatrixRectangular.cpp', 'src/Matrix/MatrixSquareGeneral.cpp',
            'src/Basic/AStringable.cpp', 'src/Basic/ASerializable.cpp']
 _KSTUS = ['src/Estimation/KrigingSystem.cpp', 'src/Basic/Utilities.cpp', 'src/Basic/VectorHelper.cpp', 'src/Enum/Enums.cpp'] + _MATTUS
 
-K('C01.a.t', property='C01', engine='symex', harness='C01/system.cpp', entries=['k_flag', 'k_lhs', 'k_iso', 'k_rhs'], tus=_KSTUS,
-  defines={'all': {'VF_NECH': 2, 'VF_NVAR': 2, 'VF_NFEQ': 1, 'VF_NDIM': 2, 'VF_NFEX': 1}},
-  bounds={'quick': 'probe'}, validate={'quick': 10}, what='probe', out='', assumptions=[], stubs=[])
+_RAW = ('KrigingSystem, the two Db, Model, ACovAnisoList and ANeigh objects are raw storage (no constructor runs); only the fields '
+        'the kernels read are initialised; VectorInt / MatrixSquareSymmetric / MatrixRectangular / MatrixSquareGeneral members are '
+        'real objects built with placement new (their setValue/getValue/prodMatMatInPlace are the real Eigen-backed code)')
+_STUBS_CB = [
+    'Db::getZVariable(rank, ivar) -> symbolic table T_z (arbitrary value or TEST)',
+    'Db::getLocVariable(ELoc::F | ELoc::V, rank, item) -> symbolic tables T_fext / T_verr (arbitrary value or TEST)',
+    'Db::getCoordinate (virtual) -> symbolic table T_coord (arbitrary value or TEST), reached through a harness-built virtual table of the raw Db objects',
+    'Db::setArray(target, iuid, value) -> recorded in harness table T_out (with a write counter)',
+    'Db::getSampleAsSPInPlace -> no-op (target coordinates are not read by the overridden covariance)',
+    'Model::isDriftSampleDefined(ib) -> symbolic boolean table',
+    'Model::evalDriftValue(db, rank, ivar, ib) -> symbolic tables T_drift (data) / T_drift0 (target, may be TEST)',
+    'CovContext::getMean(ivar) (behind the inline Model::getMean) -> symbolic table T_mean',
+    'ACov::evalCovKriging(mat, p1, p2) -> writes cov(rank(p1), rank(p2), iv, jv) from the symbolic table T_cov (T_cov[r1][r2][iv][jv] == T_cov[r2][r1][jv][iv]; '
+    'equal to C(0) on the diagonal of a stationary model) or, for a target point, from T_covt',
+    'ACov::eval0CovMatBiPointInPlace (virtual, reached from the real _covtab0Calcul through the inline Model::eval0MatInPlace) -> symmetric symbolic C(0) table',
+    'ACovAnisoList::isStationary -> symbolic boolean',
+    'ACov::updateCovByPoints (virtual), ACov::optimizationSetTarget -> no-op (non-stationary parameter update is outside)',
+    'ANeigh::getFlagContinuous (virtual) -> false',
+    '__dynamic_cast (solver build only) -> identity: the only casts reached are AMatrix* -> AMatrixDense* on dense matrices (primary base at offset 0)',
+]
+_ASSUME_SYS = [
+    _RAW,
+    'options fixed: no linear combination of variables (_flagNoMatLC), no kriging by code profile (_flagCode=false), neighbourhood not continuous, '
+    'no Bayesian drift, no simulation, point target (EKrigOpt::POINT), no collocated sample (all neighbourhood ranks >= 0)',
+    'neighbourhood = VF_NECH distinct, arbitrarily ordered ranks of an input data base of VF_NECH+1 samples',
+    'undefined value is TEST=1.234e30; defined values are reals <= 1e30 (NaN/inf are outside the real reading of double)',
+    '_lhsc/_rhsc are allocated at the full size neq and filled with a sentinel (the library sizes them to nred, a symbolic number here); '
+    'the kernel proves that every write lands in the leading nred block',
+    'pre-state of _flag, _lhsf, _rhsf is arbitrary (stale content of a previous neighbourhood: AMatrix::resize keeps values when the size is unchanged), '
+    'except the drift/drift block of _lhsf which nothing ever writes (zero since allocation)',
+]
+
+
+def _sys(ne, nv, nf, tiers):
+    neq = ne * nv + nf
+    K('C01.sys.%d%d%d' % (ne, nv, nf), property='C01', engine='symex', harness='C01/system.cpp',
+      entries=['k_flag', 'k_lhs', 'k_iso', 'k_rhs'], tus=_KSTUS,
+      defines={'all': {'VF_NECH': ne, 'VF_NVAR': nv, 'VF_NFEQ': nf, 'VF_NDIM': 2, 'VF_NFEX': 1 if nf else 0}}, tiers=tiers,
+      bounds={'quick': 'exactly nech=%d neighbourhood samples, nvar=%d variables, nfeq=%d drift equations (neq=%d), ndim=2, %d external drift; every pattern of '
+                       'undefined coordinates / data / external drifts / measurement errors, every flag pattern, every neighbourhood order, every real value of '
+                       'covariances, drifts, means and of the stale matrix contents' % (ne, nv, nf, neq, 1 if nf else 0)},
+      timeout_ms={'quick': 120000, 'thorough': 900000}, validate={'quick': 20, 'thorough': 40},
+      what='C01.a/C05.c KrigingSystem::_flagDefine (+_getIdim/_getIvar/_getFext/_setFlag/_getFLAG), _isAuthorized: flag[i+iv*nech]==1 iff all coordinates, Z(i,iv) and every '
+           'external drift of the sample are defined, drift flags, nred, isotopy, authorization; '
+           'C01.c _lhsCalcul (+_covtab0Calcul/_setLHSF/_addLHSF/_getLHSF): LHSF[IND(i,iv),IND(j,jv)]==cov(i,j,iv,jv) (+ measurement error variance on the diagonal when defined and >0), '
+           'LHSF[IND(i,iv),nvar*nech+ib]==drift(i,iv,ib) and its transpose, zero drift/drift block; '
+           'C01.b _lhsIsoToHetero/_rhsIsoToHetero: compressed matrices == rows/cols with flag!=0 in order, nothing written outside the nred block, _lhs/_rhs switched; '
+           'C01.d _rhsCalcul (point target: _rhsCalculPoint, _rhsStore, drift part): RHSF[IND(i,iv),jv]==cov(i,target,iv,jv), RHSF[nvar*nech+ib,iv]==drift(target,iv,ib), error iff a target drift is undefined',
+      out='inversion/solve (_lhsInvert, _wgtCalcul: Eigen); covariance and drift values (model hierarchy, libm); block / drift / DGM targets, matLC linear combinations, '
+          'kriging by code, continuous moving neighbourhood, collocated cokriging, Bayesian and simulation variants; neighbourhood selection (C06)',
+      assumptions=_ASSUME_SYS, stubs=_STUBS_CB)
+
+
+for _ne in (1, 2):
+    for _nv in (1, 2):
+        for _nf in (0, 1):
+            _sys(_ne, _nv, _nf, ('quick', 'thorough'))
+for _ne, _nv, _nf in ((3, 1, 0), (3, 1, 1), (2, 1, 2), (3, 2, 1), (2, 2, 2)):
+    _sys(_ne, _nv, _nf, ('thorough',))
+
+
+def _est(nr, nv, nf, tiers):
+    K('C01.f.%d%d%d' % (nr, nv, nf), property='C01', engine='symex', harness='C01/estim.cpp', entry='k_estim', tus=_KSTUS,
+      defines={'all': {'VF_NRED': nr, 'VF_NVAR': nv, 'VF_NFEQ': nf}}, tiers=tiers,
+      bounds={'quick': 'compressed system of exactly nred=%d equations of which nfeq=%d drift equations, nvar=%d right-hand sides; rhs, zam, wgt, var0, means arbitrary reals; '
+                       'status 0 (solved) or 1 (failed)' % (nr, nf, nv)},
+      timeout_ms={'quick': 120000, 'thorough': 600000}, validate={'quick': 20, 'thorough': 40},
+      what='C01.f KrigingSystem::_estimateEstim, _estimateStdv, _estimateVarZ (+_getMean/_getVAR0, AMatrixDense::prodMatMatInPlace = real Eigen product, getColumn, VH::innerProduct): '
+           "estimate==mean+rhs'.zam (mean 0 when nfeq>0), stdev>=0 with stdev^2==var0-rhs'.wgt when positive else 0, varZ==sum over covariance rows - sum over drift rows of rhs.wgt, "
+           'TEST outputs for a failed system, each output written once',
+      out='how rhs/zam/wgt were obtained (solve); rounding of the floating-point products; Bayesian variance correction, non-stationary/per-cell variance update (_variance0), matLC',
+      assumptions=[_RAW, 'exact (real) arithmetic reading of the products and of sqrt (r>=0, r*r==x); the stdev equality is stated as a 1e-12 relative bracket so that '
+                         'the correctly rounded native value satisfies it too',
+                   'matrix products are NOT stubbed: AMatrixDense::prodMatMatInPlace and the Eigen product kernels it instantiates are executed by the engine',
+                   'options fixed: _flagBayes=false, _flagNoStat=false, _flagPerCell=false, _flagNoMatLC=true'],
+      stubs=[s for s in _STUBS_CB if s.startswith(('Db::setArray', 'CovContext::getMean', '__dynamic_cast'))])
+
+
+for _nr, _nv, _nf in ((3, 2, 1), (3, 2, 0), (2, 1, 1)):
+    _est(_nr, _nv, _nf, ('quick', 'thorough'))
+for _nr, _nv, _nf in ((1, 1, 0), (1, 2, 0), (2, 1, 0), (2, 2, 0), (2, 2, 1), (3, 1, 0), (3, 1, 1), (4, 2, 2)):
+    _est(_nr, _nv, _nf, ('thorough',))
+
+CLAIMS = {'C01': 'Decided: assembly of the full and compressed kriging system (flags, LHS with measurement error and drift blocks, point RHS) and the read-out of '
+                 'estimate / stdev / varZ from a solved system, with covariance and drift values abstract; the linear solve itself is not claimed.'}
+NOTES = {'C01': 'The flag kernel (k_flag) also decides clause C05.c (per-equation flags of masked/undefined samples).'}
